@@ -1,7 +1,7 @@
 use std::collections::HashMap;
 use istring::SmallString;
 use crate as pdf;
-use crate::object::{Object, Resolve, ObjectWrite, DeepClone};
+use crate::object::{Object, Resolve, ObjectWrite, DeepClone, take_entry};
 use crate::primitive::{Primitive, Dictionary};
 use crate::error::{Result};
 use datasize::DataSize;
@@ -42,8 +42,9 @@ impl Object for Encoding {
                 };
                 let mut gid = 0;
                 let mut differences = HashMap::new();
-                if let Some(p) = dict.remove("Differences") {
-                    for part in p.resolve(resolve)?.into_array()? {
+                // (a /Differences that refers to a missing object is a null entry: absent)
+                if let Some(p) = take_entry(&mut dict, "Differences", resolve)? {
+                    for part in p.into_array()? {
                         match part {
                             Primitive::Integer(code) => {
                                 gid = code as u32;
